@@ -7,13 +7,38 @@ import DSymVerif.Proofs.CosetTotal1
 namespace DSymVerif.CosetInvP
 open DSymVerif DSymVerif.Cosets DSymVerif.LowIndexP DSymVerif.CosetPartP DSymVerif.CanonP
 
-/-- the only way the modelled enumeration can fail: a (sound, invariant-satisfying) table has
-    reached the row limit of the code's `assert!` -/
-def Lim (n : Nat) : Prop := ∃ t : Table, TCq t [] ∧ t.nrGens = n ∧ rowLimit ≤ t.len
+/-- the outcome is a value, or a panic for the stated reason -/
+def OkOrLim {α : Type} (o : Outcome α) (P : α → Prop) (L : Prop) : Prop :=
+  (∃ a, o = .ok a ∧ P a) ∨ (o = .panic ∧ L)
 
-/-- the outcome is a value, or the row-limit assertion fired -/
-def OkOrLim {α : Type} (n : Nat) (o : Outcome α) (P : α → Prop) : Prop :=
-  (∃ a, o = .ok a ∧ P a) ∨ (o = .panic ∧ Lim n)
+/-- the run of `processRow` from `(gs, t)` arrives — every earlier step having returned `.ok` — at
+    a free slot of the live row `i` while the table has `rowLimit` rows or more: the code's
+    `assert!(n < 100_000)` in `defineAndScan` fires.  (Defined along the control flow of
+    `processRow`; no other branch makes it true.) -/
+def processRowHits (rels subs : List (List Int)) (i : Nat) : List Int → Table → Prop
+  | [], _ => False
+  | g :: gs, t =>
+    if i ≠ t.canon i then False else
+    match t.get i g with
+    | .ok (some _) => processRowHits rels subs i gs t
+    | .ok none =>
+      if t.len < rowLimit then
+        match defineAndScan rels subs t i g with
+        | .ok t' => processRowHits rels subs i gs t'
+        | _ => False
+      else True
+    | _ => False
+
+/-- the run of `mainLoop` from `(fuel, i, t)` arrives, every earlier row having been processed
+    with result `.ok`, at a row whose processing hits the row-limit assertion -/
+def mainLoopHits (rels subs : List (List Int)) : Nat → Nat → Table → Prop
+  | 0, _, _ => False
+  | f + 1, i, t =>
+    if i ≥ t.len then False else
+      processRowHits rels subs i t.allGens t ∨
+        match processRow rels subs i t.allGens t with
+        | .ok t' => mainLoopHits rels subs f (i + 1) t'
+        | _ => False
 
 theorem scanAndConnect_total {t : Table} (inv : TCq t []) {w : List Int} (hw : WordOK t w)
     {start : Nat} (hc : t.canon start = start) (hl : start < t.len) :
@@ -77,7 +102,8 @@ theorem scanSubgens_total : ∀ (subs : List (List Int)) (t : Table),
 theorem defineAndScan_total {rels subs : List (List Int)} {t : Table} {i : Nat} {g : Int}
     (inv : TCq t []) (hr : ∀ w ∈ rels, WordOK t w) (hsb : ∀ w ∈ subs, WordOK t w)
     (hc : t.canon i = i) (hi : i < t.len) (hg : g ∈ t.allGens) (hfree : t.get i g = .ok none) :
-    OkOrLim t.nrGens (defineAndScan rels subs t i g) (fun t' => t'.len = t.len + 1 ∧ t.len < rowLimit) := by
+    OkOrLim (defineAndScan rels subs t i g) (fun t' => t'.len = t.len + 1 ∧ t.len < rowLimit)
+      (rowLimit ≤ t.len) := by
   unfold defineAndScan
   simp only []
   by_cases hlim : t.len < rowLimit
@@ -98,19 +124,19 @@ theorem defineAndScan_total {rels subs : List (List Int)} {t : Table} {i : Nat} 
     show t3.len = t.len + 1 ∧ True
     exact ⟨by omega, trivial⟩
   · simp only [hlim, if_false]
-    exact Or.inr ⟨rfl, t, inv, rfl, by omega⟩
+    exact Or.inr ⟨rfl, by omega⟩
 
 theorem processRow_total {rels subs : List (List Int)} (i : Nat) : ∀ (gs : List Int) (t : Table),
     TCq t [] → (∀ w ∈ rels, WordOK t w) → (∀ w ∈ subs, WordOK t w) → i < t.len →
     (∀ g ∈ gs, g ∈ t.allGens) → t.len ≤ rowLimit →
-    OkOrLim t.nrGens (processRow rels subs i gs t) (fun t' => t'.len ≤ rowLimit)
+    OkOrLim (processRow rels subs i gs t) (fun t' => t'.len ≤ rowLimit) (processRowHits rels subs i gs t)
   | [], t, _, _, _, _, _, hlen => Or.inl ⟨t, rfl, hlen⟩
   | g :: gs, t, inv, hr, hsb, hi, hgs, hlen => by
-    simp only [processRow]
+    simp only [processRow, processRowHits]
     by_cases hc : i ≠ t.canon i
-    · rw [if_pos hc]
+    · rw [if_pos hc, if_pos hc]
       exact Or.inl ⟨t, rfl, hlen⟩
-    · rw [if_neg hc]
+    · rw [if_neg hc, if_neg hc]
       have hc' : t.canon i = i := by
         by_contra hne; exact hc (fun e => hne e.symm)
       have hg : g ∈ t.allGens := hgs g (by simp)
@@ -121,16 +147,15 @@ theorem processRow_total {rels subs : List (List Int)} (i : Nat) : ∀ (gs : Lis
         rcases defineAndScan_total inv hr hsb hc' hi hg hget (rels := rels) (subs := subs) with
           ⟨t1, hd, hl1, hlt⟩ | ⟨hd, hlim⟩
         · rw [hd]
-          simp only []
+          simp only [hlt, if_true]
           obtain ⟨d1, d2, _⟩ := defineAndScan_spec inv hr hsb hc' hi hg hget hd
-          have hn1 : t1.nrGens = t.nrGens := d2.1.1
-          have := processRow_total i gs t1 d1 (fun w hw => (hr w hw).step d2)
+          exact processRow_total i gs t1 d1 (fun w hw => (hr w hw).step d2)
             (fun w hw => (hsb w hw).step d2) (by omega)
             (fun g' h' => by rw [d2.allGens]; exact hgs' g' h') (by omega) (rels := rels) (subs := subs)
-          rw [hn1] at this
-          exact this
         · rw [hd]
-          exact Or.inr ⟨rfl, hlim⟩
+          have : ¬ t.len < rowLimit := by omega
+          simp only [this, if_false]
+          exact Or.inr ⟨rfl, trivial⟩
       · rw [hget]
         simp only []
         exact processRow_total i gs t inv hr hsb hi hgs' hlen
@@ -138,13 +163,13 @@ theorem processRow_total {rels subs : List (List Int)} (i : Nat) : ∀ (gs : Lis
 theorem mainLoop_total {rels subs : List (List Int)} : ∀ (fuel i : Nat) (t : Table),
     TCq t [] → (∀ w ∈ rels, WordOK t w) → (∀ w ∈ subs, WordOK t w) → t.len ≤ rowLimit →
     rowLimit + 1 ≤ fuel + i → 1 ≤ fuel →
-    OkOrLim t.nrGens (mainLoop rels subs fuel i t) (fun _ => True) := by
+    OkOrLim (mainLoop rels subs fuel i t) (fun _ => True) (mainLoopHits rels subs fuel i t) := by
   intro fuel
   induction fuel with
   | zero => intro i t _ _ _ _ _ h1; omega
   | succ f ih =>
     intro i t inv hr hsb hlen hf _
-    simp only [mainLoop]
+    simp only [mainLoop, mainLoopHits]
     by_cases hi : i ≥ t.len
     · simp only [hi, if_true]
       exact Or.inl ⟨t, rfl, trivial⟩
@@ -154,12 +179,64 @@ theorem mainLoop_total {rels subs : List (List Int)} : ∀ (fuel i : Nat) (t : T
       · rw [hp]
         simp only []
         obtain ⟨a1, a2, _⟩ := processRow_spec i t.allGens t t1 inv hr hsb (by omega) (fun g hg => hg) hp
-        have hn1 : t1.nrGens = t.nrGens := a2.1.1
-        have := ih (i + 1) t1 a1 (fun w hw => (hr w hw).step a2) (fun w hw => (hsb w hw).step a2) hl1
-          (by omega) (by omega)
-        rw [hn1] at this
-        exact this
+        rcases ih (i + 1) t1 a1 (fun w hw => (hr w hw).step a2) (fun w hw => (hsb w hw).step a2) hl1
+          (by omega) (by omega) with ⟨a, ha, _⟩ | ⟨ha, hh⟩
+        · exact Or.inl ⟨a, ha, trivial⟩
+        · exact Or.inr ⟨ha, Or.inr hh⟩
       · rw [hp]
-        exact Or.inr ⟨rfl, hlim⟩
+        exact Or.inr ⟨rfl, Or.inl hlim⟩
+
+/-- conversely, hitting the limit makes the run panic (so `processRowHits` / `mainLoopHits` hold
+    exactly for the runs that end in the row-limit assertion) -/
+theorem processRow_panic_of_hits {rels subs : List (List Int)} (i : Nat) : ∀ (gs : List Int) (t : Table),
+    processRowHits rels subs i gs t → processRow rels subs i gs t = .panic
+  | [], _, h => by simp [processRowHits] at h
+  | g :: gs, t, h => by
+    simp only [processRowHits] at h
+    simp only [processRow]
+    by_cases hc : i ≠ t.canon i
+    · rw [if_pos hc] at h; exact absurd h (by simp)
+    · rw [if_neg hc] at h
+      rw [if_neg hc]
+      cases hget : t.get i g with
+      | ok o =>
+        cases o with
+        | some d =>
+          simp only [hget] at h ⊢
+          exact processRow_panic_of_hits i gs t h
+        | none =>
+          simp only [hget] at h ⊢
+          by_cases hl : t.len < rowLimit
+          · simp only [hl, if_true] at h
+            cases hd : defineAndScan rels subs t i g with
+            | ok t' =>
+              simp only [hd] at h ⊢
+              exact processRow_panic_of_hits i gs t' h
+            | err => simp [hd] at h
+            | panic => simp [hd] at h
+          · have : defineAndScan rels subs t i g = .panic := by
+              unfold defineAndScan
+              simp [hl]
+            rw [this]
+      | err => simp [hget] at h
+      | panic => simp [hget] at h
+
+theorem mainLoop_panic_of_hits {rels subs : List (List Int)} : ∀ (fuel i : Nat) (t : Table),
+    mainLoopHits rels subs fuel i t → mainLoop rels subs fuel i t = .panic
+  | 0, _, _, h => by simp [mainLoopHits] at h
+  | f + 1, i, t, h => by
+    simp only [mainLoopHits] at h
+    simp only [mainLoop]
+    by_cases hi : i ≥ t.len
+    · simp only [hi, if_true] at h
+    · simp only [hi, if_false] at h ⊢
+      rcases h with h | h
+      · rw [processRow_panic_of_hits i _ t h]
+      · cases hp : processRow rels subs i t.allGens t with
+        | ok t' =>
+          simp only [hp] at h ⊢
+          exact mainLoop_panic_of_hits f (i + 1) t' h
+        | err => simp [hp] at h
+        | panic => simp [hp] at h
 
 end DSymVerif.CosetInvP
